@@ -1,0 +1,9 @@
+//go:build verif
+
+package syntax
+
+// Contracts for the deductive verification in /verif (comment-only file).
+
+//@ func MakePosition
+//@   pure
+//@   ensures result.file == file && result.Line == line && result.Col == col
